@@ -47,7 +47,7 @@ Section alloc.
     intros Hm a srcs. induction srcs as [|s sr IH]; intros i olds st rs st' H; cbn in H.
     - inversion H; subst. lia.
     - destruct olds as [|o orr].
-      + destruct (touches a s); [discriminate|]. eapply IH. exact H.
+      + destruct (touches a s); [exfalso; eapply store_into_nil_not_done; exact H|]. eapply IH. exact H.
       + destruct (ea a s o st) as [[v st1]| | | |] eqn:E1; cbn [obind tag] in H; try discriminate.
         destruct (each_assign ea (i + 1) a sr orr st1) as [[vs st2]| | | |] eqn:E2; cbn [obind] in H; try discriminate.
         injection H as ? ?; subst. apply Hm in E1. apply IH in E2. lia.
